@@ -9,7 +9,7 @@
 (* Shapes                                                                  *)
 (*   prm  : [hasmsa, msa, buf, h0, h8, p, lb, excl(seq of names), sepv,    *)
 (*           sepl, minokta, minpts]                                        *)
-(*   row  : [c (name), t (rank of dt), h (feet, -1 = NaN), k (type)]       *)
+(*   row  : [c (name), t (rank of dt), h (feet, NaNH = NaN), k (type)]       *)
 (*   ids  : sequence of integers aligned with the data rows (-1 = none)    *)
 (*   trow : [cid, n, perc4, okta, b |-> [v (centi-feet), d], hmin, hmax,   *)
 (*           thick, code (char codes), sig, x (isolated|ncomp|0)]          *)
@@ -20,8 +20,8 @@ ExclSet(prm) == SeqToSet(prm.excl)
 
 (* ---- cropping above MSA + buffer (AbstractChunk._cleanup_pdf) -------- *)
 Lim(prm) == prm.msa + prm.buf
-IsAbove(r, prm) == prm.hasmsa /\ r.h # -1 /\ r.h > Lim(prm)
-CropRow(r, prm) == IF IsAbove(r, prm) THEN [c |-> r.c, t |-> r.t, h |-> -1, k |-> 0] ELSE r
+IsAbove(r, prm) == prm.hasmsa /\ r.h # NaNH /\ r.h > Lim(prm)
+CropRow(r, prm) == IF IsAbove(r, prm) THEN [c |-> r.c, t |-> r.t, h |-> NaNH, k |-> 0] ELSE r
 Crop(rows, prm) ==
   LET keep == SelectSeq(rows, LAMBDA r : ~(IsAbove(r, prm) /\ r.k > 1))
   IN [i \in 1..Len(keep) |-> CropRow(keep[i], prm)]
@@ -29,7 +29,7 @@ NAbove(rows, prm) == Cardinality({i \in Idx(rows) : IsAbove(rows[i], prm)})
 HighFlag(rows, prm) == NAbove(rows, prm) > prm.h0
 
 (* ---- members, measurements ------------------------------------------- *)
-Valid(d) == {i \in Idx(d) : d[i].h # -1}
+Valid(d) == {i \in Idx(d) : d[i].h # NaNH}
 MemIdx(idv, id) == {i \in Idx(idv) : idv[i] = id}
 IdsPresent(idv) == SeqToSet(idv) \ {-1}
 MeasOf(d, I) == {<<d[i].c, d[i].t>> : i \in I}
@@ -101,8 +101,8 @@ SliceIds(d, labels) ==
   LET vs == ValidSeq(d)
       pos(i) == CHOOSE j \in Idx(vs) : vs[j] = i
   IN IF Len(vs) = 0 THEN [i \in Idx(d) |-> -1]
-     ELSE IF Len(vs) = 1 THEN [i \in Idx(d) |-> IF d[i].h = -1 THEN -1 ELSE 1]  \* SingleValidHitGetsSliceId1
-     ELSE [i \in Idx(d) |-> IF d[i].h = -1 THEN -1 ELSE labels[pos(i)]]
+     ELSE IF Len(vs) = 1 THEN [i \in Idx(d) |-> IF d[i].h = NaNH THEN -1 ELSE 1]  \* SingleValidHitGetsSliceId1
+     ELSE [i \in Idx(d) |-> IF d[i].h = NaNH THEN -1 ELSE labels[pos(i)]]
 
 (* ---- bundles of overlapping slices and the pre-merge grouping (CeiloChunk.find_groups) ---- *)
 (* st: the slices table (rows sorted by base); pad: GROUPING_PRMS.height_pad_perc (integer %). *)
